@@ -1,8 +1,13 @@
 package props
 
 import (
+	"bytes"
 	"crypto/x509"
 	"fmt"
+	"github.com/google/go-tdx-guest/abi"
+	"github.com/google/go-tdx-guest/verify/trust"
+	"hash/crc32"
+	"strings"
 	"testing"
 
 	"github.com/google/go-tdx-guest/verify"
@@ -193,4 +198,92 @@ func c03LongHistories(t *testing.T) {
 		gen.NonTrivial("c03hist", n, gap, k.name)
 		gen.Class(fmt.Sprintf("long-history:chains-in-between>=15=%v", gap >= 15 && n > 15))
 	})
+}
+
+// optionsPrehistory makes the options value o one that has been in use: before the call a check is about, the caller
+// made other calls with it - calls that failed early (bytes that are no quote, a chain that does not parse, a truncated
+// quote), calls that failed in the collateral-free part (a tampered body, a tampered QE report), a download that
+// failed, and the exported level report SupportedTcbLevelsFromCollateral before and after them. None of it changes
+// what o asks for, so the verdict of the next call is that of a fresh options value. kind 0 = no earlier calls.
+func optionsPrehistory(raw []byte, o *verify.Options, kind int, pre trust.HTTPSGetter) string {
+	if kind <= 0 {
+		return ""
+	}
+	// (the earlier calls go through a getter of their own - the caller's getter may answer differently from request to
+	// request - and the options value gets its getter back before the call under test)
+	if pre == nil {
+		pre = gen.FailGetter{}
+	}
+	own := o.Getter
+	o.Getter = pre
+	defer func() { o.Getter = own }()
+	var did []string
+	call := func(name string, f func() error) {
+		v := gen.Call(f)
+		did = append(did, name+"->"+v.Short())
+	}
+	msg, _ := abi.QuoteToProto(append([]byte{}, raw...))
+	early := func() {
+		call("raw(not a quote)", func() error { return verify.RawTdxQuote([]byte("not a quote"), o) })
+		damaged := append([]byte{}, raw...)
+		if i := bytes.Index(damaged, []byte("-----BEGIN CERTIFICATE-----")); i >= 0 {
+			copy(damaged[i:], "-----BEGIN CERTIFICATE+++++")
+		}
+		call("raw(chain does not parse)", func() error { return verify.RawTdxQuote(damaged, o) })
+		if len(raw) > 600 {
+			call("raw(truncated)", func() error { return verify.RawTdxQuote(raw[:600], o) })
+		}
+	}
+	tampered := func() {
+		b := append([]byte{}, raw...)
+		if len(b) > 200 {
+			b[48+100] ^= 0x04
+			call("raw(body bit flipped)", func() error { return verify.RawTdxQuote(b, o) })
+		}
+		q := append([]byte{}, raw...)
+		if len(q) > 1000 {
+			q[770+130] ^= 0x01
+			call("raw(QE report bit flipped)", func() error { return verify.RawTdxQuote(q, o) })
+		}
+	}
+	report := func() {
+		if msg != nil {
+			call("SupportedTcbLevelsFromCollateral", func() error { _, _, err := verify.SupportedTcbLevelsFromCollateral(msg, o); return err })
+		}
+	}
+	download := func() {
+		o.Getter = gen.FailGetter{}
+		call("raw(genuine, every download fails)", func() error { return verify.RawTdxQuote(raw, o) })
+		report()
+		o.Getter = pre
+	}
+	switch kind {
+	case 1:
+		early()
+	case 2:
+		tampered()
+	case 3:
+		report()
+		download()
+	case 4:
+		report()
+		early()
+		report()
+	default:
+		report()
+		early()
+		tampered()
+		download()
+		report()
+	}
+	return "earlier calls on this options value: " + strings.Join(did, ", ")
+}
+
+// prehistoryKind picks the earlier calls of a case from its bytes (so that the case file alone reproduces it).
+func prehistoryKind(raw []byte) int {
+	k := int(crc32.ChecksumIEEE(raw) % 12)
+	if k > 5 {
+		return 0
+	}
+	return k
 }
